@@ -220,12 +220,14 @@ Definition emit_data (mf mg mm : list (N * N)) (d : dseg) : res odseg :=
                    end
       end
   end.
-Definition emit_export (mf mm : list (N * N)) (e : expo) : res (N * N * N) :=
+Definition emit_export (mf mg mm : list (N * N)) (e : expo) : res (N * N * N) :=
   if N.eqb (ex_kind e) 0 then
     match lookup mf (ex_idx e) with Some q => Ok (ex_name e, 0, q) | None => Panic 54 end   (* unwrap *)
+  else if N.eqb (ex_kind e) 1 then
+    match lookup mg (ex_idx e) with Some q => Ok (ex_name e, 1, q) | None => Panic 56 end   (* since the repair of D03 *)
   else if N.eqb (ex_kind e) 2 then
     match lookup mm (ex_idx e) with Some q => Ok (ex_name e, 2, q) | None => Panic 55 end
-  else Ok (ex_name e, ex_kind e, ex_idx e).                                                (* copied: D03 *)
+  else Ok (ex_name e, ex_kind e, ex_idx e).                                                (* tables, tags: copied *)
 Definition emit_imp (s : astate) (i : imp) : res oimp :=
   if N.eqb (i_sp i) 1 then
     match plookup (a_gpay s) (i_fp i) with Some p => Ok (mkOI 1 (i_fp i) (IDGlobal (gp_ty p))) | None => Panic 72 end
@@ -249,7 +251,7 @@ Definition aencode (s : astate) (dcount : bool) (sites : list (sp * N)) : res ao
             rmap (emit_global (a_gpay s) mf mg) (filter (fun i => is_local i && negb (it_del i)) lg),
             rmap (emit_mem (a_mpay s)) (filter is_local lm),
             rmap (emit_data mf mg mm) (a_data s),
-            rmap (emit_export mf mm) (filter (fun e => negb (ex_del e)) (a_exports s)),
+            rmap (emit_export mf mg mm) (filter (fun e => negb (ex_del e)) (a_exports s)),
             rmap (emit_site mf mg mm) (numberN 0 sites) with
       | Ok oi, Ok og, Ok om, Ok od, Ok oe, Ok os =>
           Ok (mkO oi (emitted_locals lf true) og om od oe os
